@@ -103,4 +103,16 @@ CHECKS = {
         "note": "Bounded: one generic compactly supported state per configuration (VERIF_SEED rotates it); zero face sums are excluded as the property states.",
         "technique": "exhaustive enumeration of the symmetry group x configuration lattice with a metamorphic (commutation) oracle on the real simulators",
     },
+    "C13": {
+        "text": "Exhaustive within bounds: every public generator x option combination (95 tuples) x precision x four shapes from the minimal admissible size up (non-cubic) x four binding kinds (contiguous, every-other-element strided, offset slice of a larger array, Fortran-ordered) x dense and impulse patterns; outputs pre-filled with a NaN-payload sentinel; values on the documented region compared with closed-form NumPy references, everything else (rest of outputs, all inputs, the parent arrays around views) compared as raw bytes. A per-case negative control proves the comparison sees a 0.1% error. Thorough tier repeats everything on the real pystencils->g++ back end.",
+        "design_ref": "DESIGN.md section 5 C13, section 4.1",
+        "note": "Quick tier runs the captured assignment collections on the interpreter, which is bound to the generated code by conformance replay (contiguous and strided bindings, all shapes minimal..minimal+2). Two value patterns per case.",
+        "technique": "full product lattice generator x options x shape x binding x pattern with closed-form and byte-equality oracles",
+    },
+    "C19": {
+        "text": "Exhaustive within bounds: Brinkmann penalisation (all Eulerian variants and the Lagrangian one) over the full product of the (u, u_b, lambda, chi) alphabets incl. 1e6 and 1e9; the characteristic function over the level-set alphabet with +-1 ulp around +-blend width; boundary damping over widths 0..6 x shapes from 2w+1 x five patterns x scalar/vector, 2-D/3-D; filters: exact impulse responses for orders 1..4 and both types give the Fourier symbol on the full (2 pi/12) Z_12^3 lattice (in [0,1], 1 at 0, 0 at the checkerboard), constants/checkerboard in exact arithmetic, and a BFS over work-buffer histories (NaN / 1e30 poison) shows independence of prior buffer contents.",
+        "design_ref": "DESIGN.md section 5 C19, sections 4.1-4.3",
+        "note": "Trusted: interpreter (float/exact), finite alphabets as listed in the evidence.",
+        "technique": "full product lattices over value alphabets, exact basis enumeration of filter impulse responses, BFS over buffer histories",
+    },
 }
